@@ -70,6 +70,10 @@ class ValueModel:
             raise Unsupported(f"len() of {recv.name}")
         return recv.width
 
+    def getattr(self, ex, recv, attr, q, node):
+        # attribute chains through register / field objects (self._mode.f.pin[n].data ...): recorded as a path
+        return [(self.wrap(Expr("attr", recv.expr, attr)), q)]
+
     def __getattr__(self, name):
         # any other method of a value (.any(), .all(), .bool(), .replicate(n), .word_select(i, w), ...): recorded as an operator
         if name.startswith("call_"):
